@@ -107,6 +107,12 @@ func initMetrics(dir string) error {
 var qid uint64 = 1000
 
 func queryAll(h e2eHistory, stage string) e2eObs {
+	return queryAllBy(h, stage, false)
+}
+
+// byRegex: the metric is selected with a regular expression on its name ({__name__=~"cpu"}); the series then come back
+// under the name "*", which is put back here
+func queryAllBy(h e2eHistory, stage string, byRegex bool) e2eObs {
 	o := e2eObs{Stage: stage, Series: map[string][]pt{}}
 	names := map[string]bool{}
 	for _, s := range h.Series {
@@ -118,6 +124,10 @@ func queryAll(h e2eHistory, stage string) e2eObs {
 	}
 	sort.Strings(nl)
 	for _, q := range nl {
+		name := q
+		if byRegex {
+			q = fmt.Sprintf(`{__name__=~"%s"}`, name)
+		}
 		reqs, _, _, err := promql.ConvertPromQLToMetricsQuery(q, h.T0, h.T0+330, 0)
 		if err != nil || len(reqs) == 0 {
 			o.Errs = append(o.Errs, fmt.Sprintf("parse %s: %v", q, err))
@@ -138,6 +148,9 @@ func queryAll(h e2eHistory, stage string) e2eObs {
 				pts = append(pts, pt{t, math.Float64bits(v)})
 			}
 			sort.Slice(pts, func(a, b int) bool { return pts[a].T < pts[b].T })
+			if byRegex && strings.HasPrefix(k, "*{") {
+				k = name + k[1:]
+			}
 			c := canonID(k)
 			if _, dup := o.Series[c]; dup {
 				o.Errs = append(o.Errs, "series returned twice: "+c)
